@@ -154,9 +154,38 @@ def run(chk):
                     chk.violation("impl", "multiclass-zero-row-kkt", f"sensor {j} has zero weights but violates the optimality inequality", ctx)
                     break
             chk.count("multiclass_objective_checked")
+            # ---- dual certificate, validated inside Coq on the exact rational values (Class/DualCheck.v): the returned weights
+            #      minimise the objective up to gap_cert among ALL real matrices (weak duality is a theorem, Class/Dual.v)
+            Pq = [[F(float(v)) for v in row] for row in psi]
+            Wq = [[F(float(v)) for v in row] for row in W]
+            Sq = [[F(float(v)) for v in row] for row in s]
+            C_ = ncls
+            PS = [[sum(Pq[i][j] * Sq[j][c] for j in range(n)) for c in range(C_)] for i in range(r)]
+            bq = [sum(Wq[i][c] - PS[i][c] for i in range(r)) / r for c in range(C_)]          # exact column means: residual columns sum to 0
+            Rq = [[Wq[i][c] - PS[i][c] - bq[c] for c in range(C_)] for i in range(r)]
+            back = [[sum(Pq[i][j] * Rq[i][c] for i in range(r)) / r for c in range(C_)] for j in range(n)]
+            mx = max([float(sum(v * v for v in row)) ** 0.5 for row in back] + [0.0])
+            sc = F(1) if mx <= l1 else F(float(l1 / mx))
+            aq = F(float(l1))
+            while any(sum((sc * v) ** 2 for v in row) > aq * aq for row in back):
+                sc = sc * (1 - F(1, 10 ** 13))          # active rows sit exactly on the constraint: shrink by rounding-level steps only
+            thq = [[sc * Rq[i][c] / r for c in range(C_)] for i in range(r)]
+            uq = []
+            for j in range(n):
+                n2 = sum(v * v for v in Sq[j])
+                uj = F(float(n2) ** 0.5 * (1 + 1e-12)) if n2 > 0 else F(0)
+                while uj * uj < n2:
+                    uj = uj * F(1000001, 1000000) + F(1, 10 ** 30)
+                uq.append(uj)
+            Wc2 = sum((Wq[i][c] - sum(Wq[k][c] for k in range(r)) / r) ** 2 for i in range(r) for c in range(C_))
+            gap_cert = F(105, 10 ** 6) * Wc2 / r + F(1, 10 ** 12)      # sklearn stops at gap <= tol * ||W centred||_F^2 (tol = 1e-4), per sample
+            exprs.append(f"check_dual_lists {r} {n} {C_} {C.cqmat(Pq)} {C.cqmat(Wq)} {C.cqmat(Sq)} {C.cqmat(thq)} {C.cqlist(bq)} {C.cqlist(uq)} "
+                         f"{C.cq(aq)} {C.cq(gap_cert)}")
+            meta.append({**ctx, "what": "multiclass dual certificate (minimiser up to the solver's gap tolerance)", "gap_tolerance": float(gap_cert)})
+            chk.count("multiclass_certificates")
     files = []
     for i in range(0, len(exprs), 40):
-        body = ("From Coq Require Import List Arith QArith Qcanon Bool. Import ListNotations.\nFrom PS Require Import LA.Sums LA.Gram Basis.Basis Class.Coef.\n"
+        body = ("From Coq Require Import List Arith QArith Qcanon Bool. Import ListNotations.\nFrom PS Require Import LA.Sums LA.Gram Basis.Basis Class.Coef Class.DualCheck.\n"
                 "Eval vm_compute in map (fun b : bool => if b then 1%nat else 0%nat) [\n  " + ";\n  ".join(exprs[i:i + 40]) + "\n].\n")
         files.append((f"cases_{i // 40}", body))
     out = []
